@@ -13,7 +13,7 @@ package keeper
 //@ define taxOf(p) = (p.PoolCreationFee.Amount * raw(p.TaxRate)) div DEC_ONE
 //@ define feeLegs(b, s, fc, fd, f, tax) = debit(credit(debit(credit(debit(b, s, fd, f), MOD, fd, f), MOD, fd, tax), fc, fd, tax), MOD, fd, f - tax)
 
-//@ func Keeper.SetParams
+//@ func Keeper.SetParams(ctx, params)
 //@   property C16
 //@   returns err
 //@   modifies prm
@@ -21,7 +21,7 @@ package keeper
 //@   ensures rejected: err != nil ==> prm == old(prm)
 //@ end
 
-//@ func msgServer.UpdateParams
+//@ func msgServer.UpdateParams(goCtx, msg)
 //@   property C16
 //@   returns resp, err
 //@   modifies prm
@@ -31,7 +31,7 @@ package keeper
 //@ end
 
 // Pool-creation fee: no parameter value accepted by validation may make this abort.
-//@ func Keeper.DeductPoolCreationFee
+//@ func Keeper.DeductPoolCreationFee(ctx, creator)
 //@   property C16, C06
 //@   returns err
 //@   requires paramsStored
@@ -57,7 +57,7 @@ package keeper
 //@ define rulesWF = forall p:Str :: forall d:Str :: has(ruleF, p, d) ==> get(ruleF, p, d).Reward == d
 
 // The rules of a pool as a list: exactly the stored rules of that pool, each once (iterator loop, A-ITER).
-//@ func Keeper.GetRewardRules
+//@ func Keeper.GetRewardRules(ctx, poolId)
 //@   property C05, C06, C13
 //@   returns rules
 //@   requires rulesWF
@@ -92,7 +92,7 @@ package keeper
 //@ define endInv(pl) = (forall d:Str :: has(ruleF, pl.Id, d) ==> RULE(pl.Id, d).RemainingReward >= RULE(pl.Id, d).RewardPerBlock * (pl.EndHeight - max(pl.LastHeightDistrRewards, pl.StartHeight)))
 //@        && has(ruleF, pl.Id, ufstr("some_reward", pl.Id)) && (pl.TotalLptLocked.Amount > 0 ==> pl.StartHeight <= pl.LastHeightDistrRewards)
 
-//@ func Keeper.updatePool
+//@ func Keeper.updatePool(ctx, pool, amount, isDestroy)
 //@   property C05, C06, C13
 //@   returns np, collected, err
 //@   requires rulesWF && rulesOK
@@ -183,7 +183,7 @@ package keeper
 //@        && pl.StartHeight >= 0 && pl.EndHeight >= pl.StartHeight
 
 // Pays what is pending, capped by what the collector holds; cannot fail for an ordinary recipient.
-//@ func Keeper.payRewards
+//@ func Keeper.payRewards(ctx, farmer, rewards)
 //@   property C05, C06
 //@   returns paid, err
 //@   requires farmer != COLLECTOR && !blocked[farmer]
@@ -201,7 +201,7 @@ package keeper
 //@ define relD(pl, d) = ite(releasing(pl) && old(has(ruleF, pl.Id, d)), relOf(old(RULE(pl.Id, d)), pl), 0)
 
 // Harvest: release the pool's rewards up to now, pay the farmer's pending reward (C06), leave the stake alone (C05).
-//@ func Keeper.Harvest
+//@ func Keeper.Harvest(ctx, poolId, sender)
 //@   property C05, C06
 //@   returns reward, err
 //@   requires rulesWF && rulesOK
@@ -267,7 +267,7 @@ package keeper
 
 // Stake: escrow the tokens, release the pool's rewards up to now, pay the pending reward of the old position and
 // record the larger position with its new debt.
-//@ func Keeper.Stake
+//@ func Keeper.Stake(ctx, poolId, lpToken, sender)
 //@   property C05, C06
 //@   returns reward, err
 //@   requires rulesWF && rulesOK
@@ -320,7 +320,7 @@ package keeper
 
 // Unstake: a farmer can always take out up to the recorded stake (C05): the only guards are the ones on the request
 // itself, the pool may have ended or been destroyed, and under the module invariants no step can fail.
-//@ func Keeper.Unstake
+//@ func Keeper.Unstake(ctx, poolId, lpToken, sender)
 //@   property C05, C06
 //@   returns reward, err
 //@   requires rulesWF && rulesOK
@@ -388,7 +388,7 @@ package keeper
 
 // Refund: take the pool off the expiry queue, release what is due up to now, end the pool at the current height,
 // zero every remaining budget and pay exactly those budgets to the creator.
-//@ func Keeper.Refund
+//@ func Keeper.Refund(ctx, pool)
 //@   property C06, C13, C05
 //@   returns refund, err
 //@   requires rulesWF && rulesOK && height >= 0
@@ -448,7 +448,7 @@ package keeper
 //@ define activeWF = forall h:Int :: forall p:Str :: has(active, h, p) ==> get(active, h, p) == p
 
 // DestroyPool: only the creator of an editable pool that has not ended; then exactly Refund.
-//@ func Keeper.DestroyPool
+//@ func Keeper.DestroyPool(ctx, poolId, creator)
 //@   property C06, C13
 //@   returns refund, err
 //@   requires rulesWF && rulesOK && height >= 0 && poolsWF
@@ -463,7 +463,7 @@ package keeper
 //@ end
 
 // The expiry iteration (helper with callback; inlined into EndBlocker together with the closure).
-//@ func Keeper.IteratorExpiredPool
+//@ func Keeper.IteratorExpiredPool(ctx, height, fun)
 //@   inline
 //@   invariant #1 pos:    0 <= it_idx && it_idx <= it_n
 //@   invariant #1 wf:     rulesWF && rulesOK && poolsWF && activeInv && activeWF
@@ -481,7 +481,7 @@ package keeper
 //@ define wholeBeforeStart(pl) = height < pl.StartHeight ==> (forall d:Str :: has(ruleF, pl.Id, d) ==> RULE(pl.Id, d).RemainingReward == RULE(pl.Id, d).TotalReward)
 // (within AdjustPool) the rule of denomination d as released up to now by updatePool
 //@ define MIDR(d) = ite(relNow, updRule(old(RULE(poolID, d)), pl), old(RULE(poolID, d)))
-//@ func Keeper.AdjustPool
+//@ func Keeper.AdjustPool(ctx, poolID, reward, rewardPerBlock, creator)
 //@   property C05, C06, C13
 //@   returns err
 //@   requires rulesWF && rulesOK && height >= 0 && poolsWF
@@ -562,7 +562,7 @@ package keeper
 
 // store a rule list (distinct reward denominations): afterwards every listed rule is the stored rule of its
 // denomination and nothing else changed
-//@ func Keeper.SetRewardRules
+//@ func Keeper.SetRewardRules(ctx, poolId, rules)
 //@   property C05, C06, C13
 //@   uses ridxRange(rules, "")
 //@   uses ridxHit(rules, 0)
@@ -583,7 +583,7 @@ package keeper
 // the id is new: no record and no rule under it yet (A-POOLID: ids are "farm-<n>" for a strictly increasing n)
 //@ define freshId(i) = !old(has(pools, i)) && (forall d:Str :: !old(has(ruleF, i, d))) && (forall h:Int :: !old(has(active, h, i)))
 
-//@ func Keeper.createPool
+//@ func Keeper.createPool(ctx, creator, description, startHeight, editable, lptDenom, totalReward, rewardPerBlock)
 //@   property C05, C06, C13
 //@   returns np, err
 //@   requires height >= 0 && startHeight >= height && ufb("denom_valid", lptDenom)
@@ -613,7 +613,7 @@ package keeper
 
 // CreatePool: the creation fee is deducted, exactly the total reward is escrowed, and the new pool starts with the
 // module invariants established: budgets cover the scheduled blocks, one queue entry at the end height, escrow identity.
-//@ func Keeper.CreatePool
+//@ func Keeper.CreatePool(ctx, description, lptDenom, startHeight, rewardPerBlock, totalReward, editable, creator)
 //@   property C05, C06, C13
 //@   returns np, err
 //@   requires paramsStored
@@ -646,7 +646,7 @@ package keeper
 // (escrow == staked + unreleased budgets) keeps holding and every escrowed coin is either released or refunded later.
 //@ define ESC = macc("escrow_collector")
 //@ define fund(p, d) = amt(coinsof(p.FundApplied), d) + amt(coinsof(p.FundSelfBond), d)
-//@ func Keeper.HandleCreateFarmProposal
+//@ func Keeper.HandleCreateFarmProposal(ctx, p)
 //@   property C05, C06
 //@   returns err
 //@   requires height >= 0 && ufb("denom_valid", p.LptDenom)
